@@ -30,7 +30,10 @@ H1g == H("Histogram1D", <<S(<<2, 4, 6>>)>>, <<4, 5>>, <<4, 5>>, "i8", <<0, 0, 0>
 H2c == H("Histogram2D", <<S(<<2, 4>>), S(<<0, 2, 6>>)>>, <<1, 2>>, <<1, 2>>, "f8", <<0>>, TRUE, 0, 0, <<0, 0>>, 5)
 H2d == H("Histogram2D", <<S(<<2, 4, 6>>), S(<<0, 2>>)>>, <<1, 2>>, <<1, 2>>, "i8", <<3>>, FALSE, 1, 0, <<0, 0>>, 0)
 Col == [cls |-> "collection", members |-> <<H1a, H("Histogram1D", <<S(<<2, 4, 6, 10>>)>>, <<0, 7, 1>>, <<0, 7, 1>>, "i8", <<0, 0, 0>>, TRUE, 2, 0, <<1>>, 0)>>]
-MCSubjects == {H2d, H1g, H2c, H1a, H1b, H1c, H1d, H1e, H1f, H2a, H2b, H3a, Pol, Rad, Azi, Sph, SpS, Cyl, CyS, Col}
+\* members over equal fixed-width bins whose binnings differ in the adaptive flag only
+Col2 == [cls |-> "collection", members |-> <<H("Histogram1D", <<F(0, 2, 1, TRUE)>>, <<1, 2>>, <<1, 2>>, "i8", <<0, 0, 0>>, TRUE, 1, 0, <<1>>, 0),
+                                             H("Histogram1D", <<F(0, 2, 1, FALSE)>>, <<3, 0>>, <<3, 0>>, "i8", <<0, 1, 0>>, TRUE, 2, 0, <<1>>, 0)>>]
+MCSubjects == {Col2, H2d, H1g, H2c, H1a, H1b, H1c, H1d, H1e, H1f, H2a, H2b, H3a, Pol, Rad, Azi, Sph, SpS, Cyl, CyS, Col}
 MCCurrent == <<0, 8, 4>>
 MCVersions == {<<a, b, c>> : a \in {0, 1, 2}, b \in {0, 7, 8, 9, 10}, c \in {0, 3, 4, 5, 20}}
 =============================================================================
